@@ -316,6 +316,7 @@ type World struct {
 	invLabels map[string]string         // key -> label
 	workerLbl map[string]string         // worker key json -> label
 	last      *scheduler.VerifSnapshot
+	panicked  string
 	pendingISCC []common.Ev
 }
 
@@ -483,8 +484,18 @@ func (w *World) Enter(bq *scheduler.InMemoryBuildQueue) {
 	w.mu.Unlock()
 }
 
+// Panicked reports whether the real code panicked in this trace.
+func (w *World) Panicked() bool {
+	w.mu.Lock()
+	defer w.mu.Unlock()
+	return w.panicked != ""
+}
+
 // Leave records the state at the end of a critical section.
 func (w *World) Leave(bq *scheduler.InMemoryBuildQueue) {
+	if w.Panicked() {
+		return
+	}
 	snap := bq.VerifSnapshot(int64(Unit))
 	w.mu.Lock()
 	a := w.byGoid[goid()]
@@ -685,6 +696,18 @@ func (w *World) spawn(a *Actor, f func() common.Ev) {
 		w.byGoid[goid()] = a
 		w.mu.Unlock()
 		close(started)
+		defer func() {
+			if r := recover(); r != nil {
+				// The real code panicked. Record it; the trace ends here.
+				w.mu.Lock()
+				w.panicked = fmt.Sprint(r)
+				a.state = "done"
+				a.done = true
+				delete(w.byGoid, goid())
+				w.mu.Unlock()
+				w.tr.Emit(common.Ev{"ev": "panic", "actor": a.name, "kind": a.kind, "msg": fmt.Sprint(r)})
+			}
+		}()
 		res := f()
 		w.mu.Lock()
 		a.state = "done"
@@ -698,7 +721,6 @@ func (w *World) spawn(a *Actor, f func() common.Ev) {
 		res["owner"] = a.owner
 		res["cancelled"] = a.cancelled
 		res["send_failed"] = a.sendFailed
-		res["iscc"] = w.takeISCC()
 		w.tr.Emit(res)
 	}()
 	<-started
